@@ -30,6 +30,13 @@ CHECKS['C05'] = ('Hypothesis @given: closed-form reference, differential against
                  'Generated pretest series x parameters; three independent oracles (own closed form, the analysis code path, metamorphic relations).',
                  'scipy t/F quantiles trusted; tolerances 1e-9 (closed form, conditioning-aware) and 1e-7 (differential).', '6 C05')
 
+CHECKS['C06'] = ('Hypothesis @given experiment frames vs closed-form Kerman-2017 posterior written from scratch; layout metamorphics; differential with the design-side tbrfit',
+                 'Generated frames (layouts, names/labels, unassigned geos/periods, gaps) x summary arguments against an independent closed form computed from generated group totals.',
+                 'scipy.stats.t trusted; rel 1e-8; rescale > 0; full panels.', '6 C06')
+CHECKS['C07'] = ('Hypothesis @given cost frames (fixed / variable / label-only scenarios): closed-form identities, same-seed determinism with a freshly fitted model, scenario predicate, exact 2^k unit equivariance',
+                 'Generated frames x summary arguments; fixed-cost figures against R8 and generated cost totals; variable-cost report checked for determinism, bounds order and unit equivariance.',
+                 'Default names for date/period/cost/response; variable scenario requires a clearly non-zero cost effect (>= 20 scales, n_pre >= 10).', '6 C07')
+
 PENDING = {}
 
 
